@@ -162,3 +162,20 @@ def unpack_frame(p):
     if p.get('index') is not None:
         df.index = p['index']
     return df
+
+
+def add_missing(rng, df, binary):
+    """outcomes set to NaN so that every (stratum, arm) cell keeps >= 2 observed outcomes (both values when binary)"""
+    df = df.copy()
+    for _, idx in df.groupby(['S', 'A']).groups.items():
+        idx = list(idx)
+        rng.shuffle(idx)
+        keep = []
+        if binary:
+            keep = [next(i for i in idx if df.at[i, 'Y'] == 1.0), next(i for i in idx if df.at[i, 'Y'] == 0.0)]
+        else:
+            keep = idx[:2]
+        rest = [i for i in idx if i not in keep]
+        for i in rest[:rng.randint(0, len(rest))]:
+            df.at[i, 'Y'] = float('nan')
+    return df
